@@ -217,15 +217,13 @@ theorem rep_assoc_get {lg : LG} {L : Lang} (h : RepLG lg L) (i : Nat) (h1 : i < 
 theorem rep_assoc_length {lg : LG} {L : Lang} (h : RepLG lg L) : lg.associations.length = L.assocs.length :=
   all2_length _ _ _ h.assocs
 
-/-- **the class of declaration `i` is found in the association group** (class names pairwise distinct, the two
-field names of the declaration differ) -/
-theorem assocPart_class {lg : LG} {L : Lang} (h : RepLG lg L) (hnd : ((assocClasses L).map (·.cls)).Nodup)
-    (i : Nat) (hi : i < L.assocs.length) (hf : L.assocs[i].leftField ≠ L.assocs[i].rightField) :
-    (entryAt (assocPart lg).2 L.assocs[i].name (className L L.assocs[i])).bind
-        (entryClass (lg.assets.map (fun r => (lg.asset r).name)) (className L L.assocs[i]))
-      = some (classOf L L.assocs[i]) := by
+/-- the entry of declaration `i` is found in the association group by the two-level lookup (class names pairwise
+distinct) -/
+theorem assocPart_entry {lg : LG} {L : Lang} (h : RepLG lg L) (hnd : ((assocClasses L).map (·.cls)).Nodup)
+    (i : Nat) (hi : i < L.assocs.length) (hi' : i < lg.associations.length) :
+    entryAt (assocPart lg).2 L.assocs[i].name (className L L.assocs[i]) =
+      some (assocEntry lg (className L L.assocs[i]) lg.associations[i]) := by
   have hlen := rep_assoc_length h
-  have hi' : i < lg.associations.length := hlen ▸ hi
   have hr := rep_assoc_get h i hi' hi
   have hnd' : (L.assocs.map (className L)).Nodup := by
     rw [assocClasses_eq_map, List.map_map] at hnd; exact hnd
@@ -242,9 +240,45 @@ theorem assocPart_class {lg : LG} {L : Lang} (h : RepLG lg L) (hnd : ((assocClas
     subst this; rfl
   have he := assocPart_entryAt lg lg.associations[i] (List.getElem_mem hi') hsame
   rw [rep_slotCls h hr, repAssoc_name hr] at he
-  rw [he]
+  exact he
+
+/-- **the class of declaration `i` is found in the association group** (class names pairwise distinct, the two
+field names of the declaration differ) -/
+theorem assocPart_class {lg : LG} {L : Lang} (h : RepLG lg L) (hnd : ((assocClasses L).map (·.cls)).Nodup)
+    (i : Nat) (hi : i < L.assocs.length) (hf : L.assocs[i].leftField ≠ L.assocs[i].rightField) :
+    (entryAt (assocPart lg).2 L.assocs[i].name (className L L.assocs[i])).bind
+        (entryClass (lg.assets.map (fun r => (lg.asset r).name)) (className L L.assocs[i]))
+      = some (classOf L L.assocs[i]) := by
+  have hi' : i < lg.associations.length := (rep_assoc_length h) ▸ hi
+  rw [assocPart_entry h hnd i hi hi']
   show entryClass _ _ _ = _
-  rw [entryClass_assocEntry lg _ L.assocs[i] _ _ rfl hr hf]
+  rw [entryClass_assocEntry lg _ L.assocs[i] _ _ rfl (rep_assoc_get h i hi' hi) hf]
   rfl
+
+/-- KF-C06-1 for the translated code: a declaration whose two ends carry the same field name gets an entry with a
+single property (the right end's), which is not an association class of the hand model -/
+theorem assocPart_same_field {lg : LG} {L : Lang} (h : RepLG lg L) (hnd : ((assocClasses L).map (·.cls)).Nodup)
+    (i : Nat) (hi : i < L.assocs.length) (hf : L.assocs[i].leftField = L.assocs[i].rightField) :
+    ∃ e spec, entryAt (assocPart lg).2 L.assocs[i].name (className L L.assocs[i]) = some e ∧
+      propsOf e = [(L.assocs[i].rightField, spec)] ∧
+      fieldOf (lg.assets.map (fun r => (lg.asset r).name)) (L.assocs[i].rightField, spec) =
+        some (L.assocs[i].rightField, L.assocs[i].rightAsset, L.assocs[i].rightMax) ∧
+      entryClass (lg.assets.map (fun r => (lg.asset r).name)) (className L L.assocs[i]) e = none := by
+  have hi' : i < lg.associations.length := (rep_assoc_length h) ▸ hi
+  have hr := rep_assoc_get h i hi' hi
+  have hr' := hr
+  unfold repAssoc at hr'
+  simp only [Bool.and_eq_true, beq_iff_eq] at hr'
+  have hlf : lg.associations[i].left_field.fieldname = L.assocs[i].leftField := by
+    have := hr'.1.2; unfold repField at this; simp only [Bool.and_eq_true, beq_iff_eq] at this; exact this.1.2
+  have hrf : lg.associations[i].right_field.fieldname = L.assocs[i].rightField := by
+    have := hr'.2; unfold repField at this; simp only [Bool.and_eq_true, beq_iff_eq] at this; exact this.1.2
+  have hsf : lg.associations[i].left_field.fieldname = lg.associations[i].right_field.fieldname := by
+    rw [hlf, hrf, hf]
+  refine ⟨_, fieldSpec lg lg.associations[i].right_field, assocPart_entry h hnd i hi hi', ?_, ?_, ?_⟩
+  · rw [assocEntry_same_field lg _ _ hsf, hrf]
+  · have := fieldOf_fieldSpec lg lg.associations[i].right_field _ _ _ _ rfl hr'.2
+    rw [hrf] at this; exact this
+  · exact entryClass_same_field lg _ _ _ hsf
 
 end MalVerif.Py.Classes
